@@ -370,6 +370,38 @@ let cmd_vhdr (args : string list) : string =
       (int_of_nat r.VcdHeader.hr_len)
   | _ -> "BADCASE"
 
+
+(* ---- loadseq <sigs> <hdrhex> <bodyhex> <ops> ---- *)
+let cmd_loadseq (args : string list) : string =
+  match args with
+  | [sigs; _hdr; body; ops] ->
+    let (tpes, lookup) = parse_sigs sigs in
+    let enc_tpes = Stdlib.List.map (fun t -> match t with None -> WaveMem.EncString | Some t -> t) tpes in
+    let (blocks, _) = get (VcdBody.read_values_reader parse_f64 lz_compress !cap !debug enc_tpes lookup
+                             (bytes_of_hex body) (nat_of_int 0)) in
+    let tpe_of i = Stdlib.List.nth tpes (int_of_nat i) in
+    let has_tpe i = (int_of_nat i) < Stdlib.List.length tpes && tpe_of i <> None in
+    let content i = match tpe_of i with
+      | Some t -> WaveMem.load_signal lz_decompress blocks i t
+      | None -> Base.Panic in
+    let inner ids = Base.outcome_map_pairs content ids in
+    let slice_info _ = None in
+    let slice s _ _ = Base.Ok s in
+    let wops = Stdlib.List.map (fun op ->
+      let (k, ids) = split2 ':' op in
+      let ids = Stdlib.List.map (fun x -> nat_of_int (int_of_string x)) (split_on ',' ids) in
+      if k = "U" then Loader.WUnload ids else Loader.WLoad ids) (split_on ';' ops) in
+    let w = get (Loader.wave_run slice_info has_tpe inner slice [] wops) in
+    let outs = Stdlib.List.mapi (fun i t ->
+      match t with
+      | None -> None
+      | Some _ ->
+        (match Loader.wave_get w (nat_of_int i) with
+         | None -> Some (Printf.sprintf "s%d=unloaded" i)
+         | Some s -> Some (Printf.sprintf "s%d=%s" i (signal_obs s)))) tpes in
+    Stdlib.String.concat " " (Stdlib.List.filter_map (fun x -> x) outs)
+  | _ -> "BADCASE"
+
 let dispatch (cmd : string) (args : string list) : string =
   match cmd with
   | "offsets" -> cmd_offsets args
@@ -380,6 +412,7 @@ let dispatch (cmd : string) (args : string list) : string =
   | "vhdr" -> cmd_vhdr args
   | "detect" -> cmd_detect args
   | "slice" -> cmd_slice args
+  | "loadseq" -> cmd_loadseq args
   | "vcd" -> cmd_vcd args
   | _ -> "UNSUPPORTED"
 
